@@ -2,6 +2,8 @@
 //! libzkchannels-crypto code in /repo.  Sub-commands execute action scripts against the
 //! implementation and write ndjson traces that TLC validates against the Trace_* specifications.
 #![allow(clippy::all)]
+mod game;
+mod indep;
 mod proto;
 mod rec;
 mod rngs;
@@ -57,6 +59,29 @@ fn real_main() {
     let (cmd, a) = args();
     let seed: u64 = a.get("seed").and_then(|s| s.parse().ok()).unwrap_or(1);
     match cmd.as_str() {
+        "dump-trees" => dump_trees(),
+        "observe" => {
+            let mut g = game::GameEnv::new(seed);
+            let v = match a["proof"].as_str() {
+                "establish" => g.observe_establish(),
+                _ => g.observe_pay(),
+            };
+            std::fs::write(&a["out"], serde_json::to_string_pretty(&v).unwrap()).unwrap();
+        }
+        "game" => {
+            let mut g = game::GameEnv::new(seed);
+            let txt = std::fs::read_to_string(&a["strategies"]).expect("strategies");
+            let mut events = vec![];
+            for line in txt.lines().filter(|l| !l.trim().is_empty()) {
+                let st: serde_json::Value = serde_json::from_str(line).expect("strategy line");
+                let ev = match st["proof"].as_str().unwrap_or("") {
+                    "establish" => g.establish(&st),
+                    _ => g.pay(&st),
+                };
+                events.push(ev);
+            }
+            write_events(&a["out"], &events);
+        }
         "proto" => {
             let script = std::fs::read_to_string(&a["script"]).expect("script");
             let events = proto::run_script(&script, seed);
@@ -67,4 +92,22 @@ fn real_main() {
             std::process::exit(2);
         }
     }
+}
+
+#[allow(dead_code)]
+pub fn dump_trees() {
+    use rand::SeedableRng;
+    let mut w = proto::World::new(1, 1);
+    w.request(1, 10, 5);
+    let est: zkabacus_crypto::EstablishProof = bincode::deserialize(w.chans[&1].est.as_ref().unwrap()).unwrap();
+    for l in rec::Tree::of(&est).leaves { println!("EST {} off={} len={} {} {}", l.path, l.off, l.len, l.kind, l.ty); }
+    w.minit(1); w.receive(1, "honest", None); w.mactivate(1); w.receive(1, "honest", None);
+    for l in w.chans[&1].cust.tree().leaves { println!("READY {} off={} len={} {} {}", l.path, l.off, l.len, l.kind, l.ty); }
+    w.start(1, 3);
+    let pay: zkabacus_crypto::PayProof = bincode::deserialize(&w.chans[&1].pay.as_ref().unwrap().1).unwrap();
+    for l in rec::Tree::of(&pay).leaves.iter().take(40) { println!("PAY {} off={} len={} {} {}", l.path, l.off, l.len, l.kind, l.ty); }
+    for l in w.chans[&1].cust.tree().leaves { println!("STARTED {} off={} len={} {} {}", l.path, l.off, l.len, l.kind, l.ty); }
+    let _ = rand::rngs::StdRng::seed_from_u64(1);
+    let pk = w.mers[0].signing_keypair().public_key().clone();
+    for l in rec::Tree::of(&pk).leaves { println!("PK {} off={} len={} {} {}", l.path, l.off, l.len, l.kind, l.ty); }
 }
